@@ -20,29 +20,64 @@ STUBS = ("#[cfg_attr(kani, kani::stub(std::fmt::format, crate::stubs::fmt_format
          "#[cfg_attr(kani, kani::stub(std::collections::hash_map::RandomState::new, crate::stubs::random_state_new))]\n"
          "#[cfg_attr(kani, kani::stub(erltf::OwnedTerm::estimated_encoded_size, crate::stubs::est_size))]\n")
 
-LEAF_SHAPES = ["int", "float", "big1", "big3", "big8", "big9", "atom1", "atom2", "bin0", "bin1", "bin2", "str1", "bit1", "bit2",
-               "nil", "list0", "pid", "port", "ref1", "ref2", "extfun", "intfun", "tuple0", "tuple1i", "list1", "imp1"]
-UWS = [(r"^terms::|^refetf::|^c01::", 24), (r"^memcmp$|^memcpy$", 24), (r"Atom::new", 16), (r"rposition|try_rfold|try_fold", 12)]
-CUTS_NOZ = [r"parse_compressed", r"flate2::|miniz_oxide::", r"parse_old_float", r"dec2flt"]
+ENC_SHAPES = ["int", "float", "big1", "big3", "big8", "big9", "atom1", "atom2", "bin0", "bin1", "bin2", "str1", "bit1", "bit2",
+              "nil", "list0", "pid", "port", "ref1", "ref2", "extfun", "tuple0", "tuple1i", "list1", "imp1", "intfun"]
+# decode side needs a concrete encoded length: integers are split into their width classes
+DEC_SHAPES = ["int_small", "int_i32", "int_w4", "int_w5", "int_w8", "float", "big1", "big3", "big9", "atom1", "atom2", "bin0", "bin1",
+              "bin2", "bit1", "bit2", "nil", "pid", "port", "ref1", "ref2", "extfun", "tuple0", "tuple1i", "list1", "imp1"]
+EXTRA = {"int_small": "mk_int_small()", "int_i32": "mk_int_i32()", "int_w4": "mk_int_wide::<4>()", "int_w5": "mk_int_wide::<5>()",
+         "int_w8": "mk_int_wide::<8>()"}
+UWS = [(r"^terms::|^refetf::|^c01::", 70), (r"^memcmp$|^memcpy$", 24), (r"Atom::new", 16), (r"rposition|try_rfold|try_fold", 12),
+       (r"nom::number", 10)]
+CUTS_NOZ = [r"parse_compressed", r"flate2::|miniz_oxide::", r"parse_old_float", r"dec2flt", r"collections::btree", r"BTreeMap"]
 
 
 def bounds(tier):
-    return {"values": "every scalar field / byte cell symbolic", "shapes": LEAF_SHAPES, "unwind": 6}
+    return {"values": "every scalar field / byte cell symbolic", "encode shapes": ENC_SHAPES, "decode shapes": DEC_SHAPES, "unwind": 6}
 
 
 def fn(name, body):
     return STUBS + "#[cfg_attr(kani, kani::proof)]\npub fn %s() {\n%s\n    vk::reached();\n}\n" % (name, body)
 
 
+def expr(s):
+    return EXTRA.get(s) or shapes.LEAVES[s][0]
+
+
+ENC_FN = {"atom": "encode_atom_impl", "int": "encode_integer", "float": "encode_float", "bin": "encode_binary|encode_string",
+          "bit": "encode_bit_binary", "list": "encode_list_impl|encode_improper_list_impl", "map": "encode_map_impl",
+          "tuple": "encode_tuple_impl", "pid": "encode_pid_impl", "port": "encode_port_impl", "ref": "encode_reference_impl",
+          "big": "encode_bigint", "extfun": "encode_export_ext_impl", "intfun": "encode_new_fun_ext_impl"}
+
+
+def enc_cuts(shape):
+    """T2: encoder arms the shape cannot reach (the decoded term's variant is not constant-propagated by CBMC)"""
+    need = {"int_small": ["int"], "int_i32": ["int"], "int_w4": ["big", "int"], "int_w5": ["big", "int"], "int_w8": ["big", "int"],
+            "float": ["float"], "big1": ["big"], "big3": ["big"], "big9": ["big"], "atom1": ["atom"], "atom2": ["atom"],
+            "bin0": ["bin"], "bin1": ["bin"], "bin2": ["bin"], "bit1": ["bit"], "bit2": ["bit"], "nil": [], "pid": ["pid", "atom"],
+            "port": ["port", "atom"], "ref1": ["ref", "atom"], "ref2": ["ref", "atom"], "extfun": ["extfun", "atom", "int"],
+            "tuple0": ["tuple"], "tuple1i": ["tuple", "int"], "list1": ["list", "int"], "imp1": ["list", "int"]}[shape]
+    return [r"encoder::(%s)$" % v for k, v in ENC_FN.items() if k not in need]
+
+
 def generate(tier, seed):
-    L = shapes.LEAVES
     src = ["use crate::terms::*;\nuse crate::c01::*;\nuse crate::vk;\n"]
     hs = []
-    for s in LEAF_SHAPES:
-        n = "c01_roundtrip__%s" % s
-        src.append(fn(n, "    let (t, r) = %s;\n    roundtrip(&t, &r);\n    vk::leak(t); vk::leak(r);" % L[s][0]))
+    for s in ENC_SHAPES:
+        n = "c01_enc__%s" % s
+        src.append(fn(n, "    let (t, r) = %s;\n    enc(&t, &r);\n    vk::leak(t); vk::leak(r);" % expr(s)))
+        cont = s in ("tuple1i", "list1", "imp1", "intfun")
+        hs.append(Harness(n, "encode(t) is Ok, accepted by the independent reader as the value t denotes, and byte-identical to the "
+                             "reference encoding — shape %s" % s, unwind=6, unwindset=UWS, cap_s=600, cuts=CUTS_NOZ,
+                          recursion=[(r"encode_term_impl|refetf::(accepts_at|denotes|emit)", 2 if cont else 1)]))
+    for s in DEC_SHAPES:
+        mode = {"int_small": (10, 0), "int_i32": (11, 0), "int_w4": (12, 4), "int_w5": (12, 5), "int_w8": (12, 8),
+                "big1": (12, 1), "big3": (12, 3), "big9": (12, 9)}.get(s, (0, 0))
         cont = s in ("tuple1i", "list1", "imp1")
-        hs.append(Harness(n, "encode ok; independent reader reads the same value; decode denotes the same value; re-encode gives the "
-                             "same bytes — shape %s" % s, unwind=6, unwindset=UWS, cap_s=600, cuts=CUTS_NOZ + [r"collections::btree", r"BTreeMap"],
-                          recursion=[(r"encode_term_impl|parse_term_from_tag|parse_term$|refetf::(accepts_at|denotes|emit)", 2 if cont else 1)]))
+        for kind, re in (("dec", "false"), ("rt", "true")):
+            n = "c01_%s__%s" % (kind, s)
+            src.append(fn(n, "    let (t, r) = %s;\n    dec(&r, %d, %d, %s);\n    vk::leak(t); vk::leak(r);" % (expr(s), mode[0], mode[1], re)))
+            hs.append(Harness(n, ("decode(reference encoding of r) is Ok and denotes r" + ("; re-encoding it gives the same bytes" if kind == "rt" else "")) + " — shape %s" % s,
+                              unwind=6, unwindset=UWS, cap_s=600, cuts=CUTS_NOZ + enc_cuts(s),
+                              recursion=[(r"encode_term_impl|parse_term_from_tag|parse_term$|refetf::(accepts_at|denotes|emit)", 2 if cont else 1)]))
     return "\n".join(src), hs
